@@ -29,10 +29,11 @@ VARIABLES l, done,
           wpend,     \* [c -> the write between its ws and we: [b, k, v, applied] or NoW]
           callow,    \* commits released so far (epochs < callow may commit / notify)
           cand, gal, \* P-layer candidates (see CacheObsTrace)
-          tagsSeen
+          tagsSeen,
+          runTags    \* one record [id, tags] per finished run
 
-tvars == <<vars, l, done, wpend, callow, cand, gal, tagsSeen>>
-tview == <<view, l, done, wpend, callow, cand, gal, tagsSeen>>
+tvars == <<vars, l, done, wpend, callow, cand, gal, tagsSeen, runTags>>
+tview == <<view, l, done, wpend, callow, cand, gal, tagsSeen, runTags>>
 
 NoW == [b |-> -1, k |-> 0, v |-> 0, applied |-> TRUE]
 AbsentV == -1
@@ -45,6 +46,7 @@ TInit ==
     /\ cand = [k \in Keys |-> {AbsentV}]
     /\ gal = [c \in Clients |-> {}]
     /\ tagsSeen = {}
+    /\ runTags = <<>>
 
 Ev == Rec[l]
 Is(e) == l <= Len(Rec) /\ Ev.e = e
@@ -55,14 +57,26 @@ MV(op, v) == IF op = "rem" THEN NoVal ELSE v + 1
 MR(r) == IF r = AbsentV THEN NoVal ELSE r + 1
 
 TRun ==
-    /\ Is("run") /\ l = 1
+    /\ Is("run")
+    /\ ResetWith(Keys, Clients)
+    /\ wpend' = [c \in Clients |-> NoW]
+    /\ callow' = 0
+    /\ cand' = [k \in Keys |-> {AbsentV}]
+    /\ gal' = [c \in Clients |-> {}]
+    /\ tagsSeen' = {}
+    /\ UNCHANGED runTags
+    /\ Consume
+
+TReset ==
+    /\ Is("reset")
+    /\ runTags' = Append(runTags, [id |-> Ev.id, tags |-> tagsSeen])
     /\ UNCHANGED <<vars, wpend, callow, cand, gal, tagsSeen>>
     /\ Consume
 
 TNew ==
     /\ Is("new") /\ Ev.b = NextEpoch
     /\ NewBatch(Ev.c)
-    /\ UNCHANGED <<wpend, callow, cand, gal, tagsSeen>>
+    /\ UNCHANGED <<wpend, callow, cand, gal, tagsSeen, runTags>>
     /\ Consume
 
 TWriteStart ==
@@ -71,7 +85,7 @@ TWriteStart ==
     /\ cand' = [cand EXCEPT ![Ev.k] = @ \cup {IF Ev.op = "rem" THEN AbsentV ELSE Ev.v}]
     /\ gal' = [c \in Clients |-> IF pc[c].st # "idle" /\ pc[c].k = Ev.k
                                   THEN gal[c] \cup {IF Ev.op = "rem" THEN AbsentV ELSE Ev.v} ELSE gal[c]]
-    /\ UNCHANGED <<vars, callow, tagsSeen>>
+    /\ UNCHANGED <<vars, callow, tagsSeen, runTags>>
     /\ Consume
 
 (* hidden: the cache / batch update of the pending write *)
@@ -79,42 +93,42 @@ TApply(c) ==
     /\ ~wpend[c].applied
     /\ DoWrite(c, wpend[c].b, wpend[c].k, wpend[c].v)
     /\ wpend' = [wpend EXCEPT ![c].applied = TRUE]
-    /\ UNCHANGED <<nops, hist, l, done, callow, cand, gal, tagsSeen>>
+    /\ UNCHANGED <<nops, hist, l, done, callow, cand, gal, tagsSeen, runTags>>
 
 TWriteEnd ==
     /\ Is("we")
     /\ wpend[Ev.c].b # -1 /\ wpend[Ev.c].applied
     /\ wpend' = [wpend EXCEPT ![Ev.c] = NoW]
     /\ cand' = [cand EXCEPT ![Ev.k] = {IF Ev.op = "rem" THEN AbsentV ELSE Ev.v}]
-    /\ UNCHANGED <<vars, callow, gal, tagsSeen>>
+    /\ UNCHANGED <<vars, callow, gal, tagsSeen, runTags>>
     /\ Consume
 
 TSubmit ==
     /\ Is("sub")
     /\ Submit(Ev.c, Ev.b)
-    /\ UNCHANGED <<wpend, callow, cand, gal, tagsSeen>>
+    /\ UNCHANGED <<wpend, callow, cand, gal, tagsSeen, runTags>>
     /\ Consume
 
 TCommitStart ==
     /\ Is("cs")
     /\ callow' = Ev.b + 1
-    /\ UNCHANGED <<vars, wpend, cand, gal, tagsSeen>>
+    /\ UNCHANGED <<vars, wpend, cand, gal, tagsSeen, runTags>>
     /\ Consume
 
-TCommit(e) == e < callow /\ Commit(e) /\ UNCHANGED <<l, done, wpend, callow, cand, gal, tagsSeen>>
-TNotify(e) == e < callow /\ Notify(e) /\ UNCHANGED <<l, done, wpend, callow, cand, gal, tagsSeen>>
+TCommit(e) == e < callow /\ Commit(e) /\ UNCHANGED <<l, done, wpend, callow, cand, gal, tagsSeen, runTags>>
+TNotify(e) == e < callow /\ Notify(e) /\ UNCHANGED <<l, done, wpend, callow, cand, gal, tagsSeen, runTags>>
 
 TCommitEnd ==
     /\ Is("ce")
     /\ Ev.b < NextEpoch /\ B(Ev.b).st = "not"
-    /\ UNCHANGED <<vars, wpend, callow, cand, gal, tagsSeen>>
+    /\ UNCHANGED <<vars, wpend, callow, cand, gal, tagsSeen, runTags>>
     /\ Consume
 
 TGetStart ==
     /\ Is("gs")
     /\ GetStart(Ev.c, Ev.k)
     /\ gal' = [gal EXCEPT ![Ev.c] = cand[Ev.k]]
-    /\ UNCHANGED <<wpend, callow, cand, tagsSeen>>
+    /\ UNCHANGED <<wpend, callow, cand, tagsSeen, runTags>>
     /\ Consume
 
 (* store reads of the running get of c are bounded by what its `ge` reports *)
@@ -124,9 +138,9 @@ GeFrom(c, j) == IF j > Len(Rec) THEN 0
 
 THidden(c) ==
     /\ Probe(c) \/ Flight(c) \/ (pc[c].ndb < GeFrom(c, l) /\ ReadDb(c)) \/ Fill(c)
-    /\ UNCHANGED <<l, done, wpend, callow, cand, gal, tagsSeen>>
+    /\ UNCHANGED <<l, done, wpend, callow, cand, gal, tagsSeen, runTags>>
 
-TEvict(k) == Evict(k) /\ UNCHANGED <<l, done, wpend, callow, cand, gal, tagsSeen>>
+TEvict(k) == Evict(k) /\ UNCHANGED <<l, done, wpend, callow, cand, gal, tagsSeen, runTags>>
 
 (* the observed result must be the model's; a wrong one must carry the tag *)
 TGetEnd ==
@@ -140,23 +154,23 @@ TGetEnd ==
         /\ tagsSeen' = IF wrong THEN tagsSeen \cup {pc[c].tag} ELSE tagsSeen
         /\ pc' = [pc EXCEPT ![c] = Idle]
         /\ allowed' = [allowed EXCEPT ![c] = {}]
-    /\ UNCHANGED <<cache, db, batch, flight, ref, nops, hist, wpend, callow, cand, gal>>
+    /\ UNCHANGED <<cache, db, batch, flight, ref, nops, hist, wpend, callow, cand, gal, runTags>>
     /\ Consume
 
 TSkip ==
-    /\ l <= Len(Rec) /\ Ev.e \in {"flood", "panic", "dead", "reset"}
-    /\ UNCHANGED <<vars, wpend, callow, cand, gal, tagsSeen>>
+    /\ l <= Len(Rec) /\ Ev.e \in {"flood", "panic", "dead"}
+    /\ UNCHANGED <<vars, wpend, callow, cand, gal, tagsSeen, runTags>>
     /\ Consume
 
 TFinish ==
     /\ l = Len(Rec) + 1 /\ ~done
-    /\ JsonSerialize(IOEnv.OUT, [accepted |-> TRUE, tags |-> tagsSeen])
+    /\ JsonSerialize(IOEnv.OUT, [accepted |-> TRUE, runs |-> runTags])
     /\ done' = TRUE
-    /\ UNCHANGED <<vars, l, wpend, callow, cand, gal, tagsSeen>>
+    /\ UNCHANGED <<vars, l, wpend, callow, cand, gal, tagsSeen, runTags>>
 
 TNext ==
     \/ TRun \/ TNew \/ TWriteStart \/ TWriteEnd \/ TSubmit \/ TCommitStart \/ TCommitEnd
-    \/ TGetStart \/ TGetEnd \/ TSkip \/ TFinish
+    \/ TGetStart \/ TGetEnd \/ TSkip \/ TReset \/ TFinish
     \/ \E c \in Clients : TApply(c) \/ THidden(c)
     \/ \E e \in 0..(NextEpoch - 1) : TCommit(e) \/ TNotify(e)
     \/ \E k \in Keys : TEvict(k)
